@@ -41,7 +41,16 @@ patch line starting with `# Begin bundle`; a patch that is followed by a bundle 
 integral time); MergeDirective2.from_objects directives install their target with the testament sha1 they
 name and their patch verifies; a patch mutation outside {space, CR, LF} is never reported as verified.
 
-Mutants this was built against: see MUTANTS (filled in by the self-test).
+Mutants this was built against (scratch worktree /var/tmp/wt-C40; all caught with a concrete input unless
+noted): v4 writer ignores the base (find_unique_ancestors(target, [])); v4 write_files emits one text per
+file id only; 0.9 writer diffs merge revisions against the first instead of the last parent; 0.9 reader
+parses the executable flag as "true"; to_lines emits the bundle section before the patch section;
+_verify_patch no longer folds a lone CR (caught by the benign-mutation oracle and T2); v4 encode_name
+without `/` escaping (file ids containing `/`); 0.9 writer drops the symlink target property;
+_verify_patch regenerates the diff against the wrong base.  Equivalent / harmless (stay clean): dropping the
+final text flush of RevisionInstaller (file records never end a bundle), list-concatenation rewrite of
+to_lines, filter() rewrite of the ghost stripping.  install_bundle without its has_revision skip makes the
+real code loop for ever: the per-scenario alarm turns that into an infrastructure failure (exit 2).
 """
 import hashlib
 import os
@@ -949,13 +958,27 @@ def _without_kind_changes(revs):
 
 def run_scenario(args):
     """never raises (exceptions of library code may not survive pickling): a crash travels as text"""
+    import signal
     import traceback
+
+    def _alarm(*_a):
+        raise TimeoutError("scenario %r exceeded its time limit" % (args,))
+    try:
+        signal.signal(signal.SIGALRM, _alarm)
+        signal.alarm(300 if args[1] == "quick" else 1200)
+    except ValueError:        # not in the main thread of the worker
+        pass
     try:
         return _run_scenario(args)
     except BaseException as e:
         if isinstance(e, (KeyboardInterrupt, SystemExit)):
             raise
         return dict(viol=[], t2=[], count={}, cases=[], crash="scenario %r: %s" % (args, traceback.format_exc()[-1500:]))
+    finally:
+        try:
+            signal.alarm(0)
+        except ValueError:
+            pass
 
 
 def _run_scenario(args):
